@@ -215,6 +215,9 @@ func writePreparedMeta(w *W, v int, m *PreparedMeta) error {
 	if m.GlobalSpec {
 		flags |= MetaGlobalSpec
 	}
+	if m.NoMetadata {
+		flags |= MetaNoMetadata
+	}
 	w.Int(flags)
 	w.Int(int32(len(m.Columns)))
 	if v >= 4 {
@@ -224,6 +227,9 @@ func writePreparedMeta(w *W, v int, m *PreparedMeta) error {
 		}
 	} else if len(m.PKIndices) > 0 {
 		return errors.New("partition key indices are not defined before v4")
+	}
+	if m.NoMetadata {
+		return nil
 	}
 	return writeColumns(w, m.GlobalSpec, m.Columns)
 }
